@@ -4,6 +4,7 @@ package main
 // here is what goes into the evidence).
 
 type harnessSpec struct {
+	Witnesses        int  // paths replayed natively (0: tier default)
 	HistoryDependent bool // counterexamples depend on pool hand-over / Go map order: a native non-reproduction does not veto
 	Name             string
 	Bounds           string
@@ -54,6 +55,7 @@ var props = []propSpec{
 	},
 	{ID: "C01",
 		Harnesses: []harnessSpec{
+			{Name: "HarnessSuiteFixtures", Witnesses: 400, Bounds: "differential validation of the executor and of the reference evaluator: the 260 labelled cases of /repo/fixtures/jsonschema_suite that involve no $ref / id / format, each run concretely through the engine (implementation == label, reference == label) and every one of them replayed natively"},
 			{Name: "HarnessC01Type", Bounds: "type keyword: 1 type, 2 types, type+enum[1 scalar] x instance in {null, symbolic bool, fully symbolic float64 |x|<=2^53, 4 strings, [], {}, [pick]}"},
 			{Name: "HarnessC01Numeric", Bounds: "minimum/maximum/exclusive* with fully symbolic float64 bounds and instance (|x|<=2^53); type absent/number with both bounds, type integer without bounds", BoundsThorough: "as quick plus type integer with both bounds"},
 			{Name: "HarnessC01MultipleOfEnum", Bounds: "multipleOf in {0.5,1,2,3}, numeric enum of 1-2 values, instance from 10 picked numbers or a scalar"},
